@@ -21,7 +21,26 @@ def main():
     if fn is None:
         print('unknown property', a.pid)
         return 2
-    return fn(ctx)
+    try:
+        return fn(ctx)
+    except Exception:
+        # the machinery itself could not process what the implementation (or the model) returned: on the unchanged tree
+        # this never happens (every check runs clean there); after a change of the code it means an output the oracles
+        # were not written for.  Report it in the protocol instead of dying with a traceback: whatever violations were
+        # already found are reported by finish(); otherwise the property is no longer shown to hold.
+        import traceback
+        tb = traceback.format_exc()
+        ctx.stage_broken('the check could not process the responses of the implementation / model (internal error of the oracle code)', tb[-1500:], None)
+        try:
+            return common.finish(ctx)
+        except Exception:
+            import json
+            path = os.path.join(common.VERIF, 'replays', '%s-%d-unproved.json' % (a.pid, seed))
+            os.makedirs(os.path.dirname(path), exist_ok=True)
+            with open(path, 'w') as f:
+                json.dump({'property': a.pid, 'seed': seed, 'no_longer_checks': [{'what': 'internal error of the check', 'detail': tb[-3000:]}]}, f, indent=1)
+            print('VIOLATION property=%s replay=%s no-failing-input-found' % (a.pid, path))
+            return 1
 
 
 if __name__ == '__main__':
